@@ -539,6 +539,15 @@ pub fn mp4_sized(r: &mut Rng, free_len: usize, extra_payload: usize, force_large
     (v, mdats)
 }
 
+/// MP4 (8-byte mdat header) whose mdat box is `mdat_size` bytes long.
+pub fn mp4_with_mdat_size(r: &mut Rng, mdat_size: usize) -> Vec<u8> {
+    let mut probe = r.clone();
+    let (_, m) = mp4_sized(&mut probe, 0, 0, Some(false));
+    let base = m[0].1 + m[0].2;
+    let extra = mdat_size.saturating_sub(base);
+    mp4_sized(r, 0, extra, Some(false)).0
+}
+
 /// All mime types / extensions the reader claims to support (for hint workloads) are obtained
 /// from the SDK at run time; this is the fixed list of *wrong-but-known* hints used in samples.
 pub fn fmt_list() -> Vec<&'static str> {
